@@ -334,6 +334,11 @@ End ==
                                 \cup Add(Ev.status = "Degraded", "DlqStops", <<"pipeline not degraded", Ev.status>>)
                            : s \in st.srcs}
                ELSE {})
+       \* C07: "otherwise the pipeline stops with an error": nobody stopped this pipeline, and a dead-letter write
+       \* was rejected or never confirmed - the run must have ended with an error
+       \cup (IF "dlq-must-stop" \in st.feats /\ (st.dlqFail # {} \/ st.dlqP # {})
+               THEN Add(Ev.status = "Degraded", "DlqStops", <<"a dead-letter write failed but the pipeline did not stop with an error", Ev.status>>)
+               ELSE {})
        \cup (IF "healthy" \in st.feats /\ "graceful" \in st.feats
                THEN Add(Settled, "NoHalfHandled", "at end")
                     \cup Add(StoredIsLastAcked, "StoredIsLastAcked", "at end")
